@@ -6,6 +6,8 @@ var props = map[string]propCfg{
 	"C06": {
 		Scenarios: []scenCfg{
 			{Name: "feed", Quick: 30000, Thorough: 2000000, Batch: 500},
+			{Name: "filter", Quick: 1500, Thorough: 100000, Batch: 100},
+			{Name: "loop", Quick: 1500, Thorough: 100000, Batch: 100},
 		},
 		Rule: "one evaluation = one seeded (byte stream, read() cut plan, fault plan) executed through the real Reader.feed and compared with a reference record splitter; " +
 			"non-trivial = the stream was delivered in more than 3 read() results (so records straddle reads); distinct = different (record count, bytes consumed, number of reads) outcome signature",
@@ -51,6 +53,18 @@ var props = map[string]propCfg{
 		RealStub: map[string][]string{
 			"real": {"Pattern.MatchItem", "algo.* matchers", "util.Slab", "Matcher.scan", "buildResult"},
 			"stub": {"goroutine scheduler (scan scenario)"},
+		},
+		QuickSecs: 100, ThorSecs: 1500,
+	},
+	"C07": {
+		Scenarios: []scenCfg{
+			{Name: "filter", Quick: 2500, Thorough: 150000, Batch: 100},
+		},
+		Rule: "filter: one evaluation = one simulated `fzf --filter` process (real option parser, Run, reader, poller, matcher or streaming path, printer) with seeded option set, input, read() cut plan and worker schedule; stdout bytes and exit status compared with a framing model; " +
+			"distinct = distinct event-log hash; non-trivial = at least one preemption",
+		RealStub: map[string][]string{
+			"real": {"ParseOptions", "Run (filter mode)", "Reader + poller", "ChunkList", "Matcher.scan", "Merger", "printer (os.Stdout redirected to a file)"},
+			"stub": {"stdin pipe", "clock", "goroutine scheduler"},
 		},
 		QuickSecs: 100, ThorSecs: 1500,
 	},
